@@ -1,6 +1,7 @@
 package harness
 
 import (
+	"bytes"
 	"encoding/json"
 	"testing"
 
@@ -75,12 +76,80 @@ func checkRunBlocks(x *parserExec) {
 		if b.W > 0 && x.shrinkPos > 0 {
 			x.runBlocksAfterShrink++
 		}
+		if len(b.Lits) > bound && x.cc.Kind == "GSAP" && !strictKnown() && gsapOutOfWindowNeighbours(x.cc, b) {
+			// Known finding D18: GSAP consults only the two suffix array
+			// neighbours of a position; when the better one lies outside
+			// the window (buffered history older than the window) the
+			// position becomes a literal although offset 1 would match.
+			x.excludedD18++
+			continue
+		}
 		if len(b.Lits) > bound {
 			x.report("C19", "block %d at stream position %d (%d bytes, all %#x) carries %d literal bytes; at most %d allowed (%d sequences)",
 				i, b.W, b.N, c, len(b.Lits), bound, len(b.Seqs))
 			return
 		}
 	}
+}
+
+// gsapOutOfWindowNeighbours delimits the known finding D18. It tells whether
+// the block has a literal position at which GSAP's documented rule (the better
+// of the two nearest earlier suffixes in suffix array order, the nearer one on
+// a tie, lengths clipped at the block end) selects a source that is outside
+// the window although the run offers a match at offset 1. The neighbours are
+// found by brute force over the data the suffix array was built on.
+func gsapOutOfWindowNeighbours(cc PCfg, b blockRec) bool {
+	if b.SaEnd < b.W+b.N || b.Off > b.W {
+		return false
+	}
+	t := b.Fed[b.Off:b.SaEnd]
+	blockEnd := b.W + b.N - b.Off
+	clip := func(j, i int) int { return commonPrefix(t[j:blockEnd], t[i:blockEnd]) }
+	// literal positions of the block
+	var lits []int
+	p := b.W
+	for _, s := range b.Seqs {
+		for k := 0; k < int(s.LitLen); k++ {
+			lits = append(lits, p+k)
+		}
+		p += int(s.LitLen) + int(s.MatchLen)
+	}
+	for ; p < b.W+b.N; p++ {
+		lits = append(lits, p)
+	}
+	checked := 0
+	for _, abs := range lits {
+		i := abs - b.Off
+		if i < 1 || blockEnd-i < cc.MinMatchLen {
+			continue
+		}
+		if checked++; checked > 6 {
+			break
+		}
+		pred, succ := -1, -1
+		for j := 0; j < i; j++ {
+			if bytes.Compare(t[j:], t[i:]) < 0 {
+				if pred < 0 || bytes.Compare(t[j:], t[pred:]) > 0 {
+					pred = j
+				}
+			} else if succ < 0 || bytes.Compare(t[j:], t[succ:]) < 0 {
+				succ = j
+			}
+		}
+		f, m := -1, 0
+		if pred >= 0 {
+			f, m = pred, clip(pred, i)
+		}
+		if succ >= 0 {
+			if m2 := clip(succ, i); f < 0 || m2 > m || (m2 == m && succ > f) {
+				f, m = succ, m2
+			}
+		}
+		if f >= 0 && m >= cc.MinMatchLen && i-f >= cc.WindowSize {
+			return true
+		}
+	}
+	return false
 }
 
 // genRunHistory: stream = prefix . c^R . suffix, delivered so that blocks of at
@@ -97,23 +166,33 @@ func genRunHistory(t *rapid.T, x *parserExec) {
 	default:
 		c = rapid.Byte().Draw(t, "c")
 	}
-	// prefix / suffix; for GSAP the prefix is free of c (GSAP consults only
-	// the two suffix array neighbours: see DESIGN.md C19)
+	// prefix / suffix: any text. (For GSAP an older run of c that has left
+	// the window while still buffered leads to the known finding D18, which
+	// checkRunBlocks delimits; the prefix is not restricted.)
 	mk := func(label string, n int) []byte {
 		out := genText(t, label, maxInt(n, 1))
 		if len(out) > n {
 			out = out[:n]
 		}
-		if cc.Kind == "GSAP" {
-			for i := range out {
-				if out[i] == c {
-					out[i] = c + 1 + byte(i%3)
-				}
-			}
-		}
 		return out
 	}
 	prefix := mk("prefix", genSize(t, "prefixLen", 80, 0, 1, 7, 8))
+	twoRunsOf := 4
+	if cc.Kind == "GSAP" {
+		twoRunsOf = 2
+	}
+	if rapid.IntRange(0, twoRunsOf-1).Draw(t, "twoRuns") == 0 {
+		// an earlier, shorter run of c, ended by a byte below or above c
+		k := 1 + genSize(t, "run0Len", 150, 1, 2, 31, 32, 63, 64, 65)
+		for i := 0; i < k; i++ {
+			prefix = append(prefix, c)
+		}
+		sep := rapid.SampledFrom([]byte{c - 1, c + 1, 0, 1, 0xff}).Draw(t, "sep")
+		if sep == c {
+			sep = c ^ 0x80
+		}
+		prefix = append(prefix, sep)
+	}
 	suffix := mk("suffix", genSize(t, "suffixLen", 40, 0, 1))
 	r := 32 + genSize(t, "runLen", 600, 0, 1, 32, 33, 64)
 	stream := append([]byte{}, prefix...)
@@ -192,6 +271,19 @@ func TestC19Runs(t *testing.T) {
 				if (kind == "GSAP" || kind == "OSAP") && cfg.MinMatchLen > 8 {
 					cfg.MinMatchLen = 8
 				}
+				if kind == "GSAP" && rapid.IntRange(0, 2).Draw(t, "smallWindow") == 0 {
+					// history older than the window stays buffered
+					cfg.WindowSize = maxInt(rapid.IntRange(2, 80).Draw(t, "gsapWindow"), cfg.MinMatchLen)
+					if cfg.BufferSize != 0 && cfg.BufferSize < 200 {
+						cfg.BufferSize = 200 + cfg.BufferSize
+					}
+					if cfg.BufferSize == 0 {
+						cfg.BufferSize = 400
+					}
+					if cfg.ShrinkSize >= cfg.BufferSize {
+						cfg.ShrinkSize = 0
+					}
+				}
 				x, err := newParserExec(cfg)
 				if err != nil {
 					st.class("config-rejected:" + kind)
@@ -221,6 +313,9 @@ func TestC19Runs(t *testing.T) {
 				}
 				if x.cc.WindowSize <= 2 {
 					cl = append(cl, "runs:minimal-window")
+				}
+				for i := 0; i < x.excludedD18; i++ {
+					st.exclude("D18-gsap-neighbours-outside-window")
 				}
 				c := x.Case()
 				st.eval(cl, x.runBlocksAfterShrink > 0, hashJSON(c), "runs-"+kind, func() any { return c })
